@@ -50,6 +50,13 @@ class Register:
             alias_from, (Register, AnnotatedValue)
         ):
             raise JaqalError(f"Cannot map {name} onto {alias_from}: it is not a register.")
+        if isinstance(alias_from, AnnotatedValue) and alias_from.kind not in (
+            ParamType.REGISTER,
+            ParamType.NONE,
+        ):
+            raise JaqalError(
+                f"Cannot map {name} onto {alias_from.name} of non-register kind {alias_from.kind}."
+            )
         if isinstance(size, AnnotatedValue):
             if size.kind not in (ParamType.INT, ParamType.NONE):
                 raise JaqalError(
@@ -201,9 +208,9 @@ class Register:
 
         alias_from = self.alias_from
         while isinstance(alias_from, AnnotatedValue):
-            alias_from.resolve_value(context)
+            alias_from = alias_from.resolve_value(context)
         if self.alias_slice is None:
-            return self.alias_from.size
+            return alias_from.size
 
         start = self.alias_slice.start or 0
         step = self.alias_slice.step
